@@ -56,6 +56,12 @@ CHECKS = {
         note="The IGNORE/annotated/untraced cell is left open as the property leaves it; Optional[T] accepted for a traced None-default parameter.",
         ref="DESIGN.md section 4 C13",
     ),
+    "C09": dict(
+        technique="explicit-state BFS over store histories with every query in every state + choice-point exploration of a second connection at every SQLite VM step + SIGKILL/abort at every VM step (and every mutating syscall) of a batch insert, against a Counter reference model",
+        text="Histories of add/reopen/open through 1..3 connections are explored breadth-first on a real database file and in every state every filter(m,p,n) of the alphabet and list_modules is compared with a reference model; a second connection reads/writes at every VM step of an insert; a forked writer is killed at every VM step (thorough: every mutating syscall via strace injection) and the file is inspected through an independent connection; every step is also aborted through the progress handler.",
+        note="Trusts SQLite's locking and journalling; 2..3 connections explored exhaustively, the '16 processes' end of the quantifier is covered by commutation of whole transactions only; process kill, not power loss.",
+        ref="DESIGN.md section 4 C09",
+    ),
 }
 
 NOT_YET = {}
